@@ -61,7 +61,10 @@ pub fn run(ctx: &Ctx) -> i32 {
             // ---- replacement by invalid content
             for (ci, (name, bad)) in mutate::corrupt_candidates(&o.content).into_iter().enumerate() {
                 if !bad.is_ascii() { continue; } // non-ASCII contents: totality is C07's property
-                if super::c01::field_parse_ok(&o.kind, &bad) != Some(false) { continue; }
+                // invalid by the independent field grammar (M1), not by the library's own field parser -- otherwise a
+                // parser that starts to accept the content makes the case disappear instead of fail
+                let m1_rejects = crate::spec::m1::kind(&o.kind).map(|k| matches!((k.rec)(&bad), crate::spec::m1::V::Reject(_))).unwrap_or(false);
+                if !m1_rejects { continue; }
                 let mut t = toks.clone(); t[p].content = bad.clone();
                 a.replacements += 1;
                 match parse_err(m.mt, &t) {
